@@ -36,6 +36,7 @@ type runner struct {
 	sigs  map[string]string // every violation signature seen → coordinates of its first case (debug dump)
 	have  map[string]bool // built-ins the interpreter has (probed once)
 	hstats map[string]map[string]int // history stream: per prefix, how often it ran to its end / threw / was rejected
+	estats map[string]map[string]int // edit-history stream: per operation, how often it ran / threw / left an array in the value
 }
 
 func (r *runner) seen(sig string, cs *Case) {
